@@ -2159,6 +2159,9 @@ func (s *ImmuStore) DiscardPrecommittedTxsSince(txID uint64) (int, error) {
 	// carry over to whatever gets precommitted under the same ids afterwards
 	if s.useExternalCommitAllowance && s.commitAllowedUpToTxID > txID-1 {
 		s.commitAllowedUpToTxID = txID - 1
+		if verifhook.On {
+			verifhook.Emit("Allow", s.path, s.commitAllowedUpToTxID)
+		}
 	}
 
 	defer func() {
